@@ -215,6 +215,9 @@ def mk_conv(name, D, L, sgn, T, direction):
                   desc="static_cast<%s>(wide_integer<%d,%s%s>)" % (T, D, "s" if sgn else "u", L[1:]), tags={"op": "to", "D": D, "L": L, "sgn": sgn})
 
 
+opts_n = [160]
+
+
 def mk_mul(name, D, L, sgn, opn="mul", shape=None):
     """shape (division only): (significant limbs of the dividend, of the divisor) - restricts the operands to one
     size class so that the path-wise exploration of Knuth's algorithm D stays small"""
@@ -259,11 +262,51 @@ def mk_mul(name, D, L, sgn, opn="mul", shape=None):
         if opn == "mul":
             exp = (A * B) % M
         elif opn == "div":
-            exp = X.fdiv(A, B) if isinstance(A, int) else A / B
+            # R == floor(A / B)  <=>  0 <= A - R*B < B   (no division in the oracle)
+            rem = A - R * B
+            return [("two's-complement-result", X.And(rem >= 0, rem < B))]
         else:
-            exp = A % B
+            # R == A mod B  <=>  0 <= R < B and B divides A - R: checked through the quotient bound below
+            if isinstance(A, int):
+                return [("two's-complement-result", R == A % B)]
+            import z3
+            q = z3.Int("q_oracle")
+            return [("two's-complement-result", X.And(R >= 0, R < B, X.eq(R, A % B)))]
         return [("two's-complement-result", X.eq(R, exp))]
-    return Kernel(name, args, "i32", body, mode="int", W=None, pre=pre, claims=claims, unwind=6 * n + 24, max_paths=40000, timeout=240,
+    gs = None
+    if shape is not None:
+        def gs(rng):
+            top = (1 << lw) - 1
+            S = [0, 1, 2, 3, top, top - 1, 1 << (lw - 1), (1 << (lw - 1)) - 1, (1 << (lw - 1)) + 1, 1 << (lw // 2), (1 << (lw // 2)) - 1, 0x55 * (top // 255), 0xAA * (top // 255)]
+            seeds = []
+            def mk(us, vs):
+                dct = {}
+                for i in range(n):
+                    dct["a_%d" % i] = us[i] if i < shape[0] else 0
+                    dct["b_%d" % i] = vs[i] if i < shape[1] else 0
+                if dct["a_%d" % (shape[0] - 1)] == 0:
+                    dct["a_%d" % (shape[0] - 1)] = 1
+                if dct["b_%d" % (shape[1] - 1)] == 0:
+                    dct["b_%d" % (shape[1] - 1)] = 1
+                return dct
+            # the classic add-back provokers: dividend 2^(kL-1), divisor 2^(jL-1)+1 and neighbours
+            for du in (0, 1, top):
+                for dv in (0, 1, 2, top):
+                    us = [du] * n
+                    us[shape[0] - 1] = 1 << (lw - 1)
+                    vs = [dv] * n
+                    vs[shape[1] - 1] = 1 << (lw - 1)
+                    seeds.append(mk(us, vs))
+                    vs2 = list(vs)
+                    vs2[shape[1] - 1] = (1 << (lw - 1)) + 1
+                    seeds.append(mk(us, vs2))
+            for _ in range(int(opts_n[0])):
+                us = [rng.choice(S) if rng.random() < 0.7 else rng.randint(0, top) for _ in range(n)]
+                vs = [rng.choice(S) if rng.random() < 0.7 else rng.randint(0, top) for _ in range(n)]
+                seeds.append(mk(us, vs))
+            return seeds
+    return Kernel(name, args, "i32", body, mode="int", W=None, pre=pre, claims=claims, unwind=6 * n + 24, max_paths=40000, timeout=240 if shape is None else 40,
+                  guided_seeds=gs,
                   desc="wide_integer<%d,%s%s> %s (%d limbs)%s" % (D, "s" if sgn else "u", L[1:], o, n, (" operands with %d/%d significant limbs" % shape) if shape else ""),
                   tags={"op": opn, "D": D, "L": L, "sgn": sgn, "limbs": n})
 
